@@ -340,9 +340,13 @@ mod c13_channel {
         let sz: usize = t[3].parse().unwrap();
         let total = parse_total(t[4]);
         let script = t[5].to_string();
+        // a hang is the outcome `timeout`; after a few of them stop waiting long (a broken channel
+        // would otherwise make the whole suite take hours)
+        static TIMEOUTS: std::sync::atomic::AtomicUsize = std::sync::atomic::AtomicUsize::new(0);
+        let secs = if TIMEOUTS.load(std::sync::atomic::Ordering::Relaxed) >= 2 { 1 } else { 5 };
         macro_rules! go {
             ($n:ty) => {
-                block_on_timeout(20, run_script::<$n>(active, read_size, total, &script))
+                block_on_timeout(secs, run_script::<$n>(active, read_size, total, &script))
             };
         }
         let r = match sz {
@@ -362,7 +366,10 @@ mod c13_channel {
         };
         match r {
             Ok(s) => s,
-            Err(e) => e,
+            Err(e) => {
+                TIMEOUTS.fetch_add(1, std::sync::atomic::Ordering::Relaxed);
+                e
+            }
         }
     }
 
